@@ -22,7 +22,8 @@ RULE = (
     "kind, arrays of every zarr-storable dtype x {0-d, empty, n-d, non-contiguous, Fortran}, tensors, modules, optimizers, schedulers, "
     "nested objects, rng, loggers, containers) x placement (attribute / singleton list / mixed list / tuple / dict / set / nested "
     "object / list in dict / object in list); hostile attribute names x carrier; configuration grid store x compression(None,0..9) x "
-    "str|Path target x mode w|o; seeded random graphs depth<=4 width<=8. Every case: zip and dir round trip vs the original "
+    "str|Path target x mode w|o; seeded random graphs depth<=4 width<=8 (now and then >10 / >100, numeric tables with mixed row kinds); overwrite and "
+    "delete-and-recreate histories of same-structure objects on one path (both stores, compression None/0/4, 4 rounds without sleeping, every load vs the latest save). Every case: zip and dir round trip vs the original "
     "(deq roundtrip), zip vs dir (deq strict), second generation vs first (deq strict, all-numeric sequences by value). non-trivial = >=3 attributes in the graph "
     "and >=2 distinct value kinds; distinct = sha1 of the sorted multiset of (kind, depth)"
 )
@@ -38,11 +39,12 @@ ASSUMPTIONS = [
 ]
 BUDGET = {"quick": {"soft_s": 75}, "thorough": {"soft_s": 540}}
 MIN_EVALUATIONS = {"quick": 800, "thorough": 3000}
-REQUIRED_COUNTERS = ["eval:roundtrip_differs", "eval:cross_store_differs", "eval:fixed_point_differs"]
+REQUIRED_COUNTERS = ["eval:roundtrip_differs", "eval:cross_store_differs", "eval:fixed_point_differs", "eval:history_stale_load"]
 EXHAUSTIVE = {"quick": False, "thorough": False}
 
 COMPRESSION = [None, 0, 1, 2, 3, 4, 5, 6, 7, 8, 9]
-CORE_PLACEMENTS = ["attr", "list1", "listmix", "tuple1", "dict", "set1", "nested_attr"]
+CORE_PLACEMENTS = ["attr", "list1", "tuple1", "dict", "set1"]
+HISTORY_VARIANTS = ["scalars", "arrays", "mixed"]
 NAME_CARRIERS = ["scalar", "path", "array", "tensor", "list", "numlist", "object", "dictkey"]
 
 
@@ -75,6 +77,13 @@ def plan(tier, seed):
     # real library classes as graphs (Dataset of every rank, ragged Vector)
     for r in range(16 if tier == "quick" else 200):
         specs.append({"kind": "library", "which": ["dataset", "dataset", "dataset", "vector"][r % 4], "compression": COMPRESSION[(r * 3) % 11]})
+    # overwrite / delete-and-recreate histories on one path: a load must always reflect the latest save
+    for store in ("zip", "dir"):
+        for comp in (None, 0, 4):
+            for variant in HISTORY_VARIANTS:
+                for how in ("overwrite", "delete_recreate"):
+                    for rep_ in range(1 if tier == "quick" else 6):
+                        specs.append({"kind": "history", "store": store, "compression": comp, "variant": variant, "how": how, "rounds": 4})
     n = 300 if tier == "quick" else 4000
     for r in range(n):
         specs.append({"kind": "random", "compression": COMPRESSION[r % 11], "pathkind": "Path" if r % 2 else "str", "mode": "o" if r % 3 == 0 else "w", "auto": r % 5 == 0})
@@ -296,10 +305,70 @@ def _library_graph(ctx, spec, rng):
         return None
 
 
+def _history_graph(ctx, rng, variant):
+    """graphs of one fixed structure whose stored form has the same size for every draw (fixed-width scalars, fixed-shape
+    arrays), so that successive saves to one path differ in content only."""
+    import numpy as np
+    import torch
+
+    sg = ctx.state["sg"]
+    g = sg.Node()
+    if variant in ("scalars", "mixed"):
+        g.i = int(rng.integers(10000, 99999))
+        g.f = float(rng.integers(100, 999)) + 0.5
+        g.s = "".join("abcdefghij"[int(c)] for c in rng.integers(0, 10, size=8))
+        g.flag = True
+        g.words = ["w%03d" % int(rng.integers(1000)), "x%03d" % int(rng.integers(1000))]
+        g.child = sg.Leaf()
+        g.child.n = int(rng.integers(100, 999))
+        g.child.tag = "t%04d" % int(rng.integers(10000))
+    if variant in ("arrays", "mixed"):
+        g.a = rng.normal(size=(4, 5))
+        g.b = rng.integers(-1000, 1000, size=7).astype(np.int32)
+        g.t = torch.tensor(rng.normal(size=(3, 3)).tolist(), dtype=torch.float32)
+        g.nums = [float(v) for v in rng.normal(size=5)]
+        g.inner = sg.Other()
+        g.inner.arr = rng.integers(0, 255, size=(2, 6)).astype(np.uint8)
+    return g
+
+
+def _run_history(spec, idx, ctx):
+    import numpy as np
+
+    load = ctx.state["load"]
+    store, comp, variant, how = spec["store"], spec["compression"], spec["variant"], spec["how"]
+    base = os.path.join(ctx.tmp, "c01", "hist%d" % idx)
+    shutil.rmtree(base, ignore_errors=True)
+    os.makedirs(base)
+    p = os.path.join(base, "obj.zip" if store == "zip" else "obj")
+    f = {"case_kind": "history", "store": store, "compression": str(comp), "variant": variant, "how": how}
+    sizes = []
+    try:
+        for rnd in range(spec["rounds"] + 1):
+            g = _history_graph(ctx, np.random.default_rng([int(ctx.seed), 1, int(idx), rnd]), variant)
+            if rnd and how == "delete_recreate":
+                shutil.rmtree(p) if os.path.isdir(p) else os.remove(p)
+            if not _save(ctx, g, p, store, "o" if (rnd and how == "overwrite") else "w", comp, dict(f, round=rnd), "save_round"):
+                break
+            sizes.append(os.path.getsize(p) if os.path.isfile(p) else -1)
+            # two loads back to back, no sleeping: both must show what was saved last
+            for rep_ in range(2):
+                ok, r = _load(ctx, p, dict(f, round=rnd), "load_round")
+                if ok:
+                    _judge(ctx, g, r, "roundtrip", "history_stale_load", dict(f, round=min(rnd, 1), second_load=bool(rep_)), "round %d: load after save #%d to the same path (%s)" % (rnd, rnd + 1, how))
+    finally:
+        shutil.rmtree(base, ignore_errors=True)
+    ctx.count("history_cases")
+    ctx.nontrivial("history|%s|%s|%s|%s" % (store, comp, variant, how), True)
+    ctx.observe(kind="history", store=store, compression=comp, variant=variant, how=how, rounds=spec["rounds"], archive_sizes=sizes)
+
+
 def run_case(spec, idx, ctx):
     sg = ctx.state["sg"]
     rng = ctx.rng(idx)
     kind = spec["kind"]
+    if kind == "history":
+        return _run_history(spec, idx, ctx)
     if kind == "library":
         g = _library_graph(ctx, spec, rng) if "Dataset" in ctx.state else None
         if g is None:
